@@ -91,7 +91,7 @@ def lines_equal(f1, f2):
     return z3.And(*parts) if parts else z3.BoolVal(True)
 
 
-def _witness(m, shape, names, data, tm):
+def _witness(m, shape, names, data, tm, pre=None):
     blocks = []
     for nm, (vs, po, ks, ns, na) in zip(names, data):
         blocks.append(dict(name=''.join(chr(sym.model_value(m, ch.code)) for ch in nm.cells),
@@ -102,17 +102,23 @@ def _witness(m, shape, names, data, tm):
                            nadd=None if na is None else sym.model_value(m, na.e)))
     t = None
     if tm: t = {k: sym.model_value(m, v.e) for k, v in tm.items()}
-    return dict(shape=shape, blocks=blocks, timing=t)
+    out = dict(shape=shape, blocks=blocks, timing=t)
+    if pre is not None:
+        out['pre'] = dict(pre, permeability=None if pre['permeability'] is None else [float(k) for k in pre['permeability']])
+    return out
 
 
-def task_shape(nblocks, nvars, por, perm, seq, timing, reset, cycles=2, toughreact=None, second=0, seed=0, freenames=False):
+def task_shape(nblocks, nvars, por, perm, seq, timing, reset, cycles=2, toughreact=None, second=0, seed=0, freenames=False, reader='fresh'):
+    # seq: False / True (both numbers) / 'nseq' / 'nadd' (only that one present)
+    # reader: 'fresh' = the file is read back by a new t2incon(filename); 'used' = it is read back with read() into an
+    # object that has already read another file (of the other flavour, with a block and a timing record of its own)
     ld, fs = _load()
     T = ld.t2incons
     np_ = ld.mulgrids.np
     failures, samples, distinct = [], [], set()
-    shape = dict(nblocks=nblocks, nvars=nvars, por=por, perm=perm, seq=seq, timing=timing, reset=reset, toughreact=toughreact, freenames=freenames)
+    shape = dict(nblocks=nblocks, nvars=nvars, por=por, perm=perm, seq=seq, timing=timing, reset=reset, toughreact=toughreact, freenames=freenames, reader=reader)
     rkw = dict(check_blocknames=False) if freenames else {}
-    tag = ('R.' if (toughreact and not (any(perm) if isinstance(perm, (list, tuple)) else perm)) else '') + 'b%d.v%d.%s%s%s.%s%s' % (nblocks, nvars, 'P' if por else 'p', ('K' if perm else 'k') if not isinstance(perm, (list, tuple)) else 'K' + ''.join('1' if x else '0' for x in perm), 'S' if seq else 's',
+    tag = ('U.' if reader == 'used' else '') + ('R.' if (toughreact and not (any(perm) if isinstance(perm, (list, tuple)) else perm)) else '') + 'b%d.v%d.%s%s%s.%s%s' % (nblocks, nvars, 'P' if por else 'p', ('K' if perm else 'k') if not isinstance(perm, (list, tuple)) else 'K' + ''.join('1' if x else '0' for x in perm), ('S' if seq is True else 'Sn' if seq == 'nseq' else 'Sa') if seq else 's',
                                    'T' if timing else 't', 'R' if reset else 'r')
 
     def h(c):
@@ -131,8 +137,8 @@ def task_shape(nblocks, nvars, por, perm, seq, timing, reset, cycles=2, toughrea
             po = fit_real(c, 'por%d' % b, 'e', 15, 9) if por else None
             has_k = perm[b] if isinstance(perm, (list, tuple)) else perm
             ks = np_.array([fit_real(c, 'k%d_%d' % (b, i), 'e', 15, 9) for i in range(3)]) if has_k else None
-            ns = c.int('nseq%d' % b, 0, 99999) if seq else None
-            na = c.int('nadd%d' % b, 0, 99999) if seq else None
+            ns = c.int('nseq%d' % b, 0, 99999) if seq in (True, 'nseq') else None
+            na = c.int('nadd%d' % b, 0, 99999) if seq in (True, 'nadd') else None
             data.append((vs, po, ks, ns, na))
             inc[nm] = T.t2blockincon(vs, nm, po, ks, ns, na)
         tm = None
@@ -165,6 +171,14 @@ def task_shape(nblocks, nvars, por, perm, seq, timing, reset, cycles=2, toughrea
                 c.add(R6(s) == z3.ToReal((K + 500) / 1000) / 10 ** 6)
                 c.add(R6(R9(s)) == z3.ToReal((K2 + 500) / 1000) / 10 ** 6)
             inc.timing = dict(tm)
+        pre = None
+        if reader == 'used':
+            # the earlier content of the reading object: one block of the OTHER flavour with a timing record
+            # (a configuration, so concrete; every value of the set under test stays symbolic)
+            pre_tr = not tr_flavour
+            pre = dict(toughreact=pre_tr, name='zz  1', variables=[1.5], porosity=0.1,
+                       permeability=np_.array([1e-15, 2e-15, 3e-15]) if pre_tr else None,
+                       timing=dict(kcyc=12345 if not pre_tr else 123456, iter=54321 if not pre_tr else 654321, nm=7, tstart=0.0, sumtim=2.5))
         r0, _ = c.reachable()
         if r0 != 'sat':
             c.prove(False, 'preconditions satisfiable (vacuity)')
@@ -172,7 +186,16 @@ def task_shape(nblocks, nvars, por, perm, seq, timing, reset, cycles=2, toughrea
         nv = nvars if nvars > 4 else None
         try:
             inc.write('f1', reset)
-            inc2 = T.t2incon('f1', num_variables=nv, **rkw)
+            if pre is None:
+                inc2 = T.t2incon('f1', num_variables=nv, **rkw)
+            else:
+                pinc = T.t2incon()
+                if pre['toughreact']: pinc.simulator = 'TOUGHREACT'
+                pinc[pre['name']] = T.t2blockincon(pre['variables'], pre['name'], pre['porosity'], pre['permeability'])
+                pinc.timing = dict(pre['timing'])
+                pinc.write('f0', False)
+                inc2 = T.t2incon('f0')
+                inc2.read('f1', nv, **rkw)
         except Exception as ex:
             # a write or read that raises on a valid set of initial conditions
             r, m = c.reachable()
@@ -181,9 +204,14 @@ def task_shape(nblocks, nvars, por, perm, seq, timing, reset, cycles=2, toughrea
                 c.failures[-1]['model'] = m
                 failures.append(dict(key='exception/%s/%s' % (type(ex).__name__, tag), what='write/read raised %s: %s (%s)' % (type(ex).__name__, str(ex)[:80], tag),
                                      replay=None))
-                failures[-1]['replay'] = _witness(m, shape, names, data, tm)
+                failures[-1]['replay'] = _witness(m, shape, names, data, tm, pre)
+                if isinstance(ex, vfsmod.EndlessRead):
+                    # the reader keeps reading at the end of the file: reproduced when the real code does not return
+                    failures[-1]['replay']['expect'] = 'nontermination'
+                    failures[-1]['key'] = 'nontermination/%s' % tag
             return 'checked'
 
+        stale = []
         def ob(f, label, key, witness=None):
             if isinstance(f, SBool): f = f.e
             if isinstance(f, bool): f = z3.BoolVal(f)
@@ -194,27 +222,25 @@ def task_shape(nblocks, nvars, por, perm, seq, timing, reset, cycles=2, toughrea
                 m = c.failures[-1]['model']
                 failures.append(dict(key='%s/%s' % (label.split(':')[0], tag if key is None else key), what='%s (%s)' % (label, tag),
                                      replay=witness_of(m)))
+                if stale:
+                    failures[-1]['key'] = '%s/used-reader-keeps-old-flavour' % label.split(':')[0]
+                    failures[-1]['what'] = 'read() into an object that has read a %s file before keeps that flavour (read() empties the blocks and the timing but not `simulator`): %s (%s)' % ('TOUGHREACT' if pre['toughreact'] else 'TOUGH2', label, tag)
             return r
 
         def witness_of(m):
-            blocks = []
-            for nm, (vs, po, ks, ns, na) in zip(names, data):
-                blocks.append(dict(name=''.join(chr(sym.model_value(m, ch.code)) for ch in nm.cells),
-                                   variables=[sym.model_value(m, v.e) for v in vs],
-                                   porosity=None if po is None else sym.model_value(m, po.e),
-                                   permeability=None if ks is None else [sym.model_value(m, k.e) for k in ks],
-                                   nseq=None if ns is None else sym.model_value(m, ns.e),
-                                   nadd=None if na is None else sym.model_value(m, na.e)))
-            t = None
-            if tm: t = {k: sym.model_value(m, v.e) for k, v in tm.items()}
-            return dict(shape=shape, blocks=blocks, timing=t)
+            return _witness(m, shape, names, data, tm, pre)
 
         if not samples:
             samples.append(dict(shape=shape, file=[repr(l)[:160] for l in fs.files['f1'][:4]]))
         ob(inc2.num_blocks == nblocks, 'count: same number of blocks', None)
         if inc2.num_blocks != nblocks: return 'count-mismatch'
         r = ob(inc2.simulator == inc.simulator, 'flavour: same simulator flavour', None)
-        if r == 'sat' and tr_flavour and not anyperm:
+        if r == 'sat' and pre is not None and not tr_flavour:
+            # the set is TOUGH2-flavoured and was read into an object that held a TOUGHREACT file before
+            stale.append(1)
+            failures[-1]['key'] = 'flavour/used-reader-keeps-old-flavour'
+            failures[-1]['what'] = 'a TOUGH2-flavoured file read with read() into an object that has read a TOUGHREACT file before is taken as TOUGHREACT: read() empties the blocks and the timing but does not reset `simulator`; a kept timing record is then parsed (and rewritten) with the 6d/6d/3d layout'
+        elif r == 'sat' and tr_flavour and not anyperm:
             failures[-1]['key'] = 'flavour/toughreact-without-permeability'
             failures[-1]['what'] = 'a TOUGHREACT-flavoured set whose blocks have no permeabilities is written without them and read back as TOUGH2 (the reader recognises the flavour only by the permeability fields); with timing kept the 6d/6d/3d timing record is then parsed with the 5d/5d/5d layout'
         for b in range(nblocks):
@@ -242,7 +268,9 @@ def task_shape(nblocks, nvars, por, perm, seq, timing, reset, cycles=2, toughrea
                         ob(isinstance(g, SReal) and g.e == strs.rounded_value('e', 9, ks[i].e), 'permeability: block %d k%d' % (b, i + 1), None)
             else: ob(bi.permeability is None, 'permeability: absent stays absent, block %d' % b, None)
             if seq:
-                ob(isinstance(bi.nseq, SInt) and isinstance(bi.nadd, SInt) and z3.And(bi.nseq.e == ns.e, bi.nadd.e == na.e), 'seq: nseq/nadd block %d' % b, None)
+                for got, want in ((bi.nseq, ns), (bi.nadd, na)):
+                    if want is None: ob(got is None, 'seq: absent number stays absent, block %d' % b, None)
+                    else: ob(isinstance(got, SInt) and got.e == want.e, 'seq: nseq/nadd block %d' % b, None)
             else: ob(bi.nseq is None and bi.nadd is None, 'seq: absent stays absent, block %d' % b, None)
         if timing and not reset:
             t2 = inc2.timing
@@ -255,6 +283,7 @@ def task_shape(nblocks, nvars, por, perm, seq, timing, reset, cycles=2, toughrea
                     ob(isinstance(t2[k], SReal) and t2[k].e == strs.rounded_value('e', 9, tm[k].e), 'timing: %s' % k, None)
         else:
             ob(inc2.timing is None, 'timing: none after reset / when absent', None)
+        if stale: return 'checked'      # the stale flavour is pinned by the flavour and timing keys; the rewrite adds nothing
         # second write reproduces the first file
         inc2.write('f2', reset)
         f1, f2 = fs.files['f1'], fs.files['f2']
@@ -311,6 +340,12 @@ def shapes(tier):
             dict(nblocks=2, nvars=2, por=True, perm=[True, False], seq=False, timing=True, reset=False),
             # free-form element names ('WELL1'), read with the constructor option check_blocknames = False
             dict(nblocks=2, nvars=2, por=True, perm=False, seq=True, timing=False, reset=True, freenames=True),
+            # only one of the two sequence numbers present
+            dict(nblocks=1, nvars=1, por=True, perm=False, seq='nseq', timing=False, reset=True),
+            dict(nblocks=1, nvars=1, por=False, perm=False, seq='nadd', timing=False, reset=True),
+            # read back with read() into an object that has already read a file of the other flavour
+            dict(nblocks=1, nvars=1, por=True, perm=False, seq=False, timing=True, reset=False, reader='used'),
+            dict(nblocks=1, nvars=1, por=False, perm=True, seq=False, timing=True, reset=False, reader='used'),
         ]
         return combos
     for nb in (0, 1, 2, 3):
@@ -322,6 +357,12 @@ def shapes(tier):
                     if nb == 2 and nvars != 4 and (por != seq): continue
                     out.append(dict(nblocks=nb, nvars=nvars, por=por, perm=perm, seq=seq, timing=timing, reset=reset,
                                     cycles=3 if (nvars in (3, 4, 5) and nb <= 2) else 2))
+    # round 4: only one sequence number present; reading back into a used object (both flavours, with / without kept timing)
+    out += [q for q in shapes('quick') if q.get('reader') == 'used' or q['seq'] in ('nseq', 'nadd')]
+    out += [dict(nblocks=2, nvars=2, por=True, perm=False, seq='nadd', timing=True, reset=False),
+            dict(nblocks=2, nvars=2, por=True, perm=False, seq=True, timing=True, reset=False, reader='used'),
+            dict(nblocks=2, nvars=2, por=True, perm=[True, False], seq=False, timing=True, reset=False, reader='used'),
+            dict(nblocks=1, nvars=4, por=True, perm=False, seq=False, timing=True, reset=True, reader='used', cycles=3)]
     return out
 
 
@@ -331,11 +372,12 @@ def run(tier, seed, rep):
     if os.environ.get('C13_ONLY'):      # development aid: 'b1.v4' style filter on nblocks / nvars
         nb_, nv_ = os.environ['C13_ONLY'].split(',')
         sh = [s for s in sh if s['nblocks'] == int(nb_) and s['nvars'] == int(nv_)]
+    if os.environ.get('C13_READER'): sh = [s for s in sh if s.get('reader', 'fresh') == os.environ['C13_READER']]
     tasks = [(task_shape, dict(s, second=150, seed=seed) if tier == 'thorough' else s) for s in sh]
     # long tasks first
     tasks.sort(key=lambda t: -(t[1]['nblocks'] * 10 + t[1]['nvars']))
     rep.add_results(report.run_tasks(tasks))
-    rep.bounds += ['%d shapes: blocks 0..%d, 1..12 variables (1..3 lines), porosity / permeability (TOUGHREACT) / nseq,nadd present or absent, timing absent / present x reset on / off' % (len(sh), max(s['nblocks'] for s in sh)),
+    rep.bounds += ['%d shapes: blocks 0..%d, 1..12 variables (1..3 lines), porosity / permeability (TOUGHREACT) / nseq,nadd present or absent, timing absent / present x reset on / off; only one of nseq / nadd present; read back by a new object or by read() into an object that has already read a file of the other flavour (concrete one-block file with timing)' % (len(sh), max(s['nblocks'] for s in sh)),
                    'block names: 5 symbolic characters, first three over letters/digits/blank, 4th digit or blank, 5th digit (every name the four conventions can produce), pairwise different printed forms',
                    'sumtim in [1,10) when timing is kept (exact decimal rounding model, needed to decide the header double rounding); reals: v = 0 or 1e-120 <= |v| <= 1e120 whose rendering fits the field (a value needing both a minus sign and a 3-digit exponent in 20.13e / 15.9e does not fit and is excluded); integers 0..99999']
     rep.outside += ['names with punctuation in the first three characters; a name starting +++ reads as the timing marker (not produced by any naming convention)',
